@@ -2,12 +2,12 @@ package vc
 
 import (
 	"fmt"
-	"os"
-	"runtime/debug"
 	"go/ast"
 	"go/token"
 	"go/types"
+	"os"
 	"path/filepath"
+	"runtime/debug"
 	"sort"
 	"strings"
 )
@@ -129,25 +129,25 @@ func (e *Engine) posStr(p token.Pos) string {
 
 // fctx is the context of one function under verification.
 type fctx struct {
-	e        *Engine
-	fi       *FuncInfo
-	con      *Contract
-	entry    *State
-	returns  []*retState
-	boxed    map[*types.Var]bool
-	counters map[string]int
-	loopOrd  map[ast.Stmt]int
-	callOrd  map[string]int
-	ghost    map[string]*Value // ghost variables by name (values live in State via ghostVars)
-	ghostVar map[string]*types.Var
-	props    []string
-	resultVars []*types.Var
-	caseLabel  string
-	jumps    []*jumpFrame
-	spec     bool
-	inlineDepth int
-	oldState *State
-	retFrames []*retFrame
+	e            *Engine
+	fi           *FuncInfo
+	con          *Contract
+	entry        *State
+	returns      []*retState
+	boxed        map[*types.Var]bool
+	counters     map[string]int
+	loopOrd      map[ast.Stmt]int
+	callOrd      map[string]int
+	ghost        map[string]*Value // ghost variables by name (values live in State via ghostVars)
+	ghostVar     map[string]*types.Var
+	props        []string
+	resultVars   []*types.Var
+	caseLabel    string
+	jumps        []*jumpFrame
+	spec         bool
+	inlineDepth  int
+	oldState     *State
+	retFrames    []*retFrame
 	pendingLabel string
 	closureLits  map[*types.Var]*ast.FuncLit
 	callIndex    map[*ast.CallExpr]callRef
@@ -161,9 +161,9 @@ type fctx struct {
 	tailSwitch   ast.Stmt
 	protected    []protRegion
 	protCells    []protCell
-	localAddr    map[int]bool // addresses of boxed local variables (by term id)
+	localAddr    map[int]bool  // addresses of boxed local variables (by term id)
 	exitExempt   map[int]*Term // object address (term id) -> condition under which its invariant may be violated at this return
-	madeSlices   map[int]bool // base addresses of slices allocated with make() in this frame (by term id)
+	madeSlices   map[int]bool  // base addresses of slices allocated with make() in this frame (by term id)
 }
 
 // nonNilElem: slices of this element type hold no nil once they are visible outside the frame that built them.
@@ -286,7 +286,6 @@ func abbrev(s string) string {
 	}
 	return s
 }
-
 
 // assert records an obligation under the current path condition.
 func (fx *fctx) assert(st *State, kind, detail string, goal *Term, n ast.Node, props []string, desc string) *Obligation {
